@@ -21,6 +21,7 @@ import (
 	"errors"
 	"net"
 	"os"
+	"sync/atomic"
 	"syscall"
 )
 
@@ -59,6 +60,8 @@ type listener struct {
 	addr net.Addr     // listener's local addr
 	ln   net.Listener // tcp|unix listener
 	file *os.File
+	// closed makes Close idempotent without writing fields that Accept reads concurrently
+	closed uint32
 }
 
 // Accept implements Listener.
@@ -89,15 +92,16 @@ func (ln *listener) Accept() (net.Conn, error) {
 
 // Close implements Listener.
 func (ln *listener) Close() error {
+	if !atomic.CompareAndSwapUint32(&ln.closed, 0, 1) {
+		return nil // already closed; fd and file stay untouched, Accept may still be reading them
+	}
 	if ln.file != nil {
 		// ln.fd is the descriptor of ln.file: it is closed through its owner only, and only once
 		verifFD(-vfdListenerFile, ln, ln.fd)
 		ln.file.Close()
-		ln.file, ln.fd = nil, 0
 	} else if ln.fd != 0 {
 		verifFD(-vfdListener, ln, ln.fd)
 		syscall.Close(ln.fd)
-		ln.fd = 0
 	}
 	if ln.ln != nil {
 		ln.ln.Close()
